@@ -5,15 +5,24 @@ Fault enumeration on real TunnelCommunity nodes (default timing settings) over S
 for every hop count, teardown initiator, phase and every set of <= d message faults (drop / duplicate /
 delay) in the window after the trigger, virtual time runs to the deadline T and every table must be empty and
 every outside socket closed.  Plus: join limit under every order of create requests; relay_early budget.
+
+Hidden-services family (see the section "hidden services" below and notes/C09.md): the same for a linked end-to-end
+circuit of real HiddenTunnelCommunity nodes (c04.E2EBench world): trigger x net x fault set, deadline, then second plain
+circuits through the surviving nodes that are abandoned, second deadline; oracle by ownership (an entry may stay only
+while a running originator still uses it), no stray outside sockets, periodic tasks alive, no loop exceptions.
 """
 from __future__ import annotations
 
 import itertools
+import os
+import pickle
+import traceback
 
 from ipv8.messaging.anonymization.payload import CreatePayload, DataPayload
 from ipv8.messaging.anonymization.tunnel import CIRCUIT_STATE_READY
 
 from .. import core, seams
+from . import c04
 from ..tunnelworld import BT_PAYLOAD, CONFIG_ROUTES, EXIT_ALL, RELAY, TunnelWorld
 
 LEVEL = "fault_enumeration"
@@ -32,9 +41,10 @@ def deadline(settings) -> float:  # noqa: ANN001
 class FaultPlan:
     """faults: dict index -> 'drop' | 'dup' | 'delay' applied to the i-th datagram sent after arming."""
 
-    def __init__(self, world: TunnelWorld, faults: dict[int, str]) -> None:
+    def __init__(self, world: TunnelWorld, faults: dict[int, str], window: float = FAULT_WINDOW) -> None:
         self.world = world
         self.faults = faults
+        self.window = window
         self.armed_at: float | None = None
         self.count = 0
         self.held: list = []
@@ -47,7 +57,7 @@ class FaultPlan:
 
     def hook(self, dg):  # noqa: ANN001, ANN201
         w = self.world
-        if self.armed_at is None or w.loop.time() > self.armed_at + FAULT_WINDOW:
+        if self.armed_at is None or w.loop.time() > self.armed_at + self.window:
             return self._release(dg)
         i = self.count
         self.count += 1
@@ -118,6 +128,8 @@ def scenarios() -> list[tuple]:
 
 def run_one(scn: tuple, faults: dict[int, str], seed: int):  # noqa: ANN201
     """Returns (violations, n_fault_candidates, observation)."""
+    if scn[0] == "hs":
+        return run_hs(scn, faults, seed)
     h, ini, (phase, k) = scn
     busy = ini.split("+")[1] if "+" in ini else None
     ini = ini.split("+")[0]
@@ -238,16 +250,443 @@ def _teardown(w: TunnelWorld, ini: str, cid: int) -> str:
     return f"relays={len(ov.relay_from_to)},exits={len(ov.exit_sockets)}"
 
 
+# ---- hidden services: end-to-end (rendezvous) circuits --------------------------------------------------------------
+#
+# World (c04.E2EBench, built by the real rendezvous protocol, default timing settings):
+#     e2e circuit       D -> N3 -> N2 (rendezvous point) <- S         D: RP_DOWNLOADER (2 hops), S: RP_SEEDER (1 hop)
+#     introduction      S -> N1 -> E (introduction point, stub DHT)   S: IP_SEEDER (2 hops)
+#     D's data circuit  D -> E                                        (the one it looks peers up with)
+#     P, Q              bystanders that later originate the *second* circuits
+# Scenario = ("hs", trigger, net).  After the trigger and the fault set, virtual time runs to the deadline (stage 1);
+# then P and Q build plain data circuits through the path nodes that are still running (P -> N3 -> N2 -> E and
+# Q -> [S] -> [D] -> E), move a packet out and back over each, go offline, and time runs to a second deadline
+# (stage 2).
+# net "closed": what an exit socket sends to the outside is lost (D cannot reach the introduction point again);
+# net "bridged": the outside world delivers packets addressed to the nodes' own addresses / exit ports (as the
+# Internet would), so a downloader that stays in the swarm rebuilds its e2e circuit through the same nodes.
+#
+# Oracle at both deadlines: an entry (node, table, circuit id) that existed at the trigger - or belongs to a second
+# circuit - may only still be there if it is *in use*: reachable, hop by hop over running nodes, from a circuit that
+# a running originator holds and is not closing (S's introduction circuit while S seeds and runs, D's data circuit
+# while D runs, an e2e circuit whose originator never learnt of a teardown).  Entries created after the trigger by the
+# nodes themselves (rebuilt e2e circuits, new rendezvous circuits) are not judged: they belong to live originators and
+# may be in the middle of their own teardown at the deadline.
+
+HS_TRIGGERS = ("d-offline", "s-offline", "d-leave", "d-traffic", "n2-remove", "n3-remove")
+HS_TRIGGERS_THOROUGH = (*HS_TRIGGERS, "s-leave")
+HS_NETS = ("closed", "bridged")
+HS_MAX_TRAFFIC = 64 * 1024       # D's settings.max_traffic in the trigger "d-traffic" (default: 10 GiB)
+HS_PUSH = (24, 1400)             # packets each way, bytes per packet: takes D's e2e circuit over HS_MAX_TRAFFIC
+HS_TICK = 2e-6                   # virtual seconds one loop iteration takes (twice the loop's clock resolution)
+HS_E2E_TABLES = (("D", "circuits", 0), ("N3", "relay_from_to", 0), ("N3", "relay_from_to", 1),
+                 ("N2", "relay_from_to", 1), ("N2", "relay_from_to", 2), ("S", "circuits", 2))
+_HS_TABLES = ("circuits", "relay_from_to", "exit_sockets")
+HS_ROLES = {**c04.E2E_ROLES, "P": RELAY, "Q": RELAY}
+
+
+class HSBench(c04.E2EBench):
+    """c04's linked hidden-service world plus the bystanders P and Q."""
+
+    def make_world(self) -> TunnelWorld:
+        self.dht = c04.StubDHT()
+        return TunnelWorld(("c09-hs", self.seed), HS_ROLES, community_cls=c04.RecHidden,
+                           key_offset=self.seed % 5, dht_provider=self.dht)
+
+
+def _hs_entries(w: TunnelWorld) -> set:
+    return {(n, tb, cid) for n, o in w.ov.items() for tb in _HS_TABLES for cid in getattr(o, tb)}
+
+
+def _hs_in_use(w: TunnelWorld) -> set:
+    """Entries reachable from a non-closing circuit of a running originator over running nodes."""
+    by_addr = {tuple(n.address): name for name, n in w.nodes.items()}
+    up = {name for name, n in w.nodes.items() if n.endpoint.is_open()}
+    live: set = set()
+
+    def walk(name: str | None, cid: int) -> None:
+        while name in up:
+            o = w.ov[name]
+            if cid in o.exit_sockets:
+                live.add((name, "exit_sockets", cid))
+            r = o.relay_from_to.get(cid)
+            if r is None or (name, "relay_from_to", cid) in live:
+                return
+            live.add((name, "relay_from_to", cid))
+            if r.circuit_id in o.relay_from_to:
+                live.add((name, "relay_from_to", r.circuit_id))     # the same hop, other direction
+            name, cid = by_addr.get(tuple(r.hop.address)), r.circuit_id
+            if name is not None and cid in w.ov[name].circuits:
+                return                                              # a rendezvous relay: the far end is an originator
+
+    for name in sorted(up):
+        for cid, c in w.ov[name].circuits.items():
+            if c.state == "CLOSING" or c.hop is None:
+                continue
+            live.add((name, "circuits", cid))
+            walk(by_addr.get(tuple(c.hop.address)), cid)
+    return live
+
+
+def _hs_send(b, who: str, data: bytes) -> None:  # noqa: ANN001
+    w = b.w
+    c = b.ce if who == "D" else b.cs
+    zero = ("0.0.0.0", 0)
+    w.nodes[who].run(w.ov[who].send_data, c.hop.address, c.circuit_id, zero, zero, data)
+
+
+def _hs_trigger(b, trig: str) -> str:  # noqa: ANN001
+    w = b.w
+    if trig in ("d-offline", "s-offline"):
+        w.nodes[trig[0].upper()].endpoint.close()
+        return "offline"
+    if trig in ("d-leave", "s-leave"):
+        name = trig[0].upper()
+        n0 = len(w.ov[name].circuits)
+        w.nodes[name].run(w.ov[name].leave_swarm, b.SERVICE)
+        w.loop.settle()
+        return f"leave_swarm({n0} circuits)"
+    if trig == "d-traffic":
+        return "sweep"          # nothing to do: D's next do_circuits() finds the circuit over the limit
+    name = trig.split("-")[0].upper()
+    o = w.ov[name]
+    rids = list(o.relay_from_to)
+    for rid in rids:
+        w.nodes[name].run(o.remove_relay, rid, "teardown", destroy=1)
+    return f"remove_relay x{len(rids)}"
+
+
+def _hs_second(w: TunnelWorld, roles: dict) -> tuple[set, list, str | None]:
+    """Bystanders P and Q build, use and abandon plain data circuits through the running path nodes."""
+    ov = w.ov
+    up = [n for n in ("S", "D") if w.nodes[n].endpoint.is_open()]
+    plans = [("P", ["N3", "N2", "E"]), *([("Q", [*up, "E"])] if up else [])]
+    saved = {n: dict(o.candidates) for n, o in ov.items()}
+    before = _hs_entries(w)
+    n_tr = len(w.loop.transports)
+    circs = []
+    for origin, path in plans:
+        for n in [origin, *path[:-1]]:            # everybody on the path knows the others (as after a walk)
+            ov[n].candidates.clear()
+            for m in path:
+                if m != n:
+                    ov[n].candidates[w.peer_of(n, m)] = sorted(roles[m])
+        circs.append(w.start_circuit(origin, path))
+        w.flush()
+    for n, o in ov.items():
+        o.candidates.clear()
+        o.candidates.update(saved[n])
+    for (origin, path), c in zip(plans, circs):
+        want = [w.nodes[n].my_peer.public_key.key_to_bin() for n in path]
+        if c.state != CIRCUIT_STATE_READY or [h.public_key_bin for h in c.hops] != want:
+            return set(), plans, f"second circuit {origin} -> {path} did not become ready over that path"
+    for (origin, _), c in zip(plans, circs):
+        w.send_out(origin, c, ("9.9.9.9", 99), BT_PAYLOAD)
+    w.flush()
+    exited = [t for t in w.loop.transports[n_tr:] if t.sent]
+    for t in exited:
+        t.inject(BT_PAYLOAD, ("9.9.9.9", 99))
+    w.flush()
+    if len(exited) != len(circs):
+        return set(), plans, f"{len(exited)} of {len(circs)} second circuits moved a packet out"
+    second = _hs_entries(w) - before
+    for origin, _ in plans:
+        w.nodes[origin].endpoint.close()
+    return second, plans, None
+
+
+class HSPrepared:
+    """A hidden-services world at the moment just before the trigger (the same for every fault set of a scenario)."""
+
+    def __init__(self, scn: tuple, seed: int) -> None:
+        _, self.trig, self.net = scn
+        self.scn = scn
+        self.b = b = HSBench("e2e", seed)          # raises c04.HarnessError
+        try:
+            w = b.w
+            d = w.ov["D"]
+            if self.trig == "d-traffic":
+                d.settings.max_traffic = HS_MAX_TRAFFIC
+                for i in range(HS_PUSH[0]):
+                    _hs_send(b, "D", bytes([i]) * HS_PUSH[1])
+                    _hs_send(b, "S", bytes([i + 100]) * HS_PUSH[1])
+                    w.flush()
+                others = [c.bytes_up + c.bytes_down for c in d.circuits.values() if c is not b.ce]
+                if not (b.ce.bytes_up + b.ce.bytes_down > HS_MAX_TRAFFIC > 4 * max(others)):
+                    raise c04.HarnessError(f"e2e circuit at {b.ce.bytes_up + b.ce.bytes_down} bytes, others {others}, "
+                                           f"limit {HS_MAX_TRAFFIC}")
+            # mid-transfer: one packet each way is in flight when the trigger happens
+            _hs_send(b, "D", b"\x01" * 200)
+            _hs_send(b, "S", b"\x02" * 200)
+            w.loop.settle()
+            cid = b.link_cid["A"]
+            self.e2e = {(n, tb, cid[k]) for n, tb, k in HS_E2E_TABLES}
+            self.at_trigger = _hs_entries(w)
+            if not self.e2e <= self.at_trigger:
+                raise c04.HarnessError(f"e2e entries missing at the trigger: {sorted(self.e2e - self.at_trigger)}")
+        except BaseException:
+            b.close()
+            raise
+
+    def close(self) -> None:
+        self.b.close()
+
+
+def _hs_tick(loop) -> None:  # noqa: ANN001
+    """
+    From now on every loop iteration takes HS_TICK seconds of virtual time, as iterations do in reality: timers armed
+    in successive iterations for the same delay (the sweep re-arming its 5 s period, then the removal task it started
+    beginning its 5 s remove_tunnel_delay) come due in the order in which they were armed.  Without this they fall due
+    at the same virtual instant and asyncio's timer heap fires them in an unspecified order.
+    """
+    inner = loop.iteration
+
+    def iteration() -> None:
+        inner()
+        seams.CLOCK.advance(HS_TICK)
+    loop.iteration = iteration
+
+
+def _hs_run_for(w: TunnelWorld, dt: float) -> None:
+    """World.run_for for a clock that may also move between timers (see _hs_tick)."""
+    end = w.loop.time() + dt
+    guard = 0
+    while True:
+        w.flush()
+        nt = w.loop.next_timer()
+        if nt is None or nt > end:
+            break
+        seams.CLOCK.set(max(nt, seams.CLOCK.now))
+        guard += 1
+        if guard > 2_000_000:
+            raise RuntimeError("timer storm")
+    seams.CLOCK.set(max(end, seams.CLOCK.now))
+    w.flush()
+
+
+def hs_continue(p: HSPrepared, faults: dict):  # noqa: ANN201, C901
+    """Trigger + fault set + stage 1 + second circuits + stage 2 on a prepared world (which is used up by this)."""
+    b, trig, net, scn, e2e, at_trigger = p.b, p.trig, p.net, p.scn, p.e2e, p.at_trigger
+    w = b.w
+    ov = w.ov
+    viol: list = []
+    plan = FaultPlan(w, {int(i): f for i, f in faults.items() if str(i) != "sched"}, window=_HS_WINDOW)
+    if net == "bridged":
+        def idle() -> bool:
+            released = plan.release_all()
+            return bool(b._bridge()) or released      # noqa: SLF001
+        w.idle_hook = idle
+    exc0 = len(w.loop.exceptions)
+    plan.arm()
+    sched = faults.get("sched", "tick")
+    w.batch = sched == "batch"
+    if sched != "instant":
+        _hs_tick(w.loop)
+    did = _hs_trigger(b, trig)
+    T = deadline(ov["D"].settings)
+    trail = f"trigger={trig} net={net} faults={faults} action={did}; first datagrams after the trigger: "
+
+    def cls(entry: tuple, second: set) -> str:
+        return "e2e" if entry in e2e else "second" if entry in second else "other"
+
+    def judge(stage: str, judged: set, second: set) -> tuple:
+        present = _hs_entries(w)
+        in_use = _hs_in_use(w)
+        leaked = sorted((judged & present) - in_use, key=repr)
+        since = "the trigger" if stage == "stage 1" else "the second circuits were abandoned"
+        for which in ("e2e", "second", "other"):
+            items = [i for i in leaked if cls(i, second) == which]
+            if items:
+                tables = "+".join(t for t in _HS_TABLES if any(i[1] == t for i in items))
+                viol.append((f"hs-leak:{tables}|circuit:{which}|trigger:{trig}",
+                             f"{stage}: {T:.0f}s after {since} these entries of the {which} circuit(s) are still held "
+                             f"and no running originator uses them: {items}; {trail}{plan.log[:12]}"))
+        es_ok = set()
+        for n, o in ov.items():
+            for c, es in o.exit_sockets.items():
+                if (n, "exit_sockets", c) in in_use or (n, "exit_sockets", c) not in judged:
+                    es_ok.update(id(t) for t in (es.transport_ipv4, es.transport_ipv6) if t is not None)
+        stray = [(t.owner.name if t.owner else None, t.local_addr) for t in w.open_transports() if id(t) not in es_ok]
+        if stray:
+            viol.append((f"hs-open-socket|trigger:{trig}",
+                         f"{stage}: outside sockets of exit sockets that are gone or unused are still open: {stray}; "
+                         f"{trail}{plan.log[:12]}"))
+        dead = [n for n, o in ov.items() if not (o.is_pending_task_active("do_circuits")
+                                                 and o.is_pending_task_active("do_ping"))]
+        if dead:
+            viol.append((f"hs-sweep-dead|trigger:{trig}",
+                         f"{stage}: the periodic do_circuits/do_ping task of {dead} has ended: these nodes never again "
+                         f"reclaim anything by inactivity, age or traffic; {trail}{plan.log[:12]}"))
+        return (tuple(sorted((n, tb, cls((n, tb, c), second)) for n, tb, c in (judged & present))),
+                len(present - judged), len(leaked), len(stray), tuple(dead))
+
+    _hs_run_for(w, T)
+    obs1 = judge("stage 1", at_trigger, set())
+    second, paths, err = _hs_second(w, HS_ROLES)
+    if err:
+        viol.append(("harness:hs-second-circuit", f"{scn}: {err}; {trail}{plan.log[:12]}"))
+        return viol, plan.count, ("second-failed", obs1)
+    _hs_run_for(w, T)
+    obs2 = judge("stage 2", at_trigger | second, second)
+    excs = w.loop.exceptions[exc0:]
+    if excs:
+        msgs = sorted({"".join(traceback.format_exception(e["exception"]))[-700:] if e.get("exception")
+                       else str(e.get("message"))[:200] for e in excs})
+        name = type(excs[0]["exception"]).__name__ if excs[0].get("exception") else str(excs[0].get("message"))[:40]
+        viol.append((f"hs-loop-exception:{name}|trigger:{trig}", f"{len(excs)} exception(s) reached the loop's "
+                     f"exception handler; {trail}{plan.log[:12]}: {msgs[:2]}"))
+    seen, out = set(), []
+    for k, what in viol:        # one violation per key (stage 1 and stage 2 may both report the same class)
+        if k not in seen:
+            seen.add(k)
+            out.append((k, what))
+    return out, plan.count, (obs1, obs2, did, plan.count, len(paths), len(excs))
+
+
+def run_hs(scn: tuple, faults: dict, seed: int):  # noqa: ANN201
+    """One hidden-services execution in a fresh world. Returns (violations, n_fault_candidates, observation)."""
+    try:
+        p = HSPrepared(scn, seed)
+    except c04.HarnessError as e:
+        return [("harness:hs-setup", f"{scn}: {e}")], 0, None
+    try:
+        return hs_continue(p, faults)
+    finally:
+        p.close()
+
+
+def in_child(fn, loop=None):  # noqa: ANN001, ANN201
+    """fn() in a fork()ed copy of this process (a snapshot of every world in it); its (picklable) result."""
+    r, wr = os.pipe()
+    pid = os.fork()
+    if pid == 0:
+        code = 1
+        try:
+            os.close(r)
+            try:
+                if loop is not None:
+                    # asyncio's at-fork hook forgets the running loop in the child: adopt the world's loop again
+                    # (what vloop.new_loop() did in the parent)
+                    from asyncio import events  # noqa: PLC0415
+                    events._set_running_loop(None)      # noqa: SLF001
+                    events._set_running_loop(loop)      # noqa: SLF001
+                payload = pickle.dumps(("ok", fn()))
+            except BaseException as e:  # noqa: BLE001
+                payload = pickle.dumps(("err", "".join(traceback.format_exception(e))))
+            with os.fdopen(wr, "wb") as f:
+                f.write(payload)
+            code = 0
+        finally:
+            os._exit(code)
+    os.close(wr)
+    with os.fdopen(r, "rb") as f:
+        data = f.read()
+    os.waitpid(pid, 0)
+    if not data:
+        raise RuntimeError("forked execution died without a result")
+    kind, val = pickle.loads(data)  # noqa: S301
+    if kind == "err":
+        raise RuntimeError(f"forked execution failed:\n{val}")
+    return val
+
+
+def hs_scenarios(thorough: bool) -> list[tuple]:
+    return [("hs", t, net) for t in (HS_TRIGGERS_THOROUGH if thorough else HS_TRIGGERS) for net in HS_NETS]
+
+
+def hs_items(thorough: bool) -> list[tuple]:
+    """
+    Work items: scenario x part of the fault enumeration.
+      drops  the fault-free run (normal and 'batch' scheduling) and every set of <= bound dropped datagrams
+      dup    every single duplication and adjacent reordering (bound >= 2: and every dup+drop pair on the closed net)
+      batch  every single fault in scheduling mode 'batch'
+    quick: closed net: drops + dup, bridged net: drops; thorough: everything.
+    """
+    return [(*scn, part) for scn in hs_scenarios(thorough) for part in ("drops", "dup", "batch")
+            if thorough or part == "drops" or (part == "dup" and scn[2] == "closed")]
+
+
 # ---- worker: DFS over fault sets of one scenario -------------------------------------------------------------------
 
+_HS_WINDOW = 15.0     # seconds after the trigger during which datagrams are fault candidates (hidden services)
+_HS_BOUND = 1
 _BOUND = 2
 _SEED = 0
 _SINGLES = True
 
 
+def explore_hs(item: tuple) -> tuple:
+    """
+    One part of the fault enumeration of a hidden-services scenario.  The world is prepared once and every fault set
+    runs in a fork()ed snapshot of it (a fresh world per execution costs twice as much); the fault-free execution is
+    also done in a fresh world the way replay() does it and must give the same observation.
+    """
+    _, trig, net, part = item
+    scn = ("hs", trig, net)
+    execs = 0
+    outcomes: set = set()
+    viols: dict[str, tuple] = {}
+    max_n = 0
+    fresh = run_hs(scn, {}, _SEED) if part == "drops" else None     # before the snapshot world exists: one clock
+    try:
+        prep = HSPrepared(scn, _SEED)
+    except c04.HarnessError as e:
+        return (item, 0, 0, outcomes, {"harness:hs-setup": (f"{scn}: {e}", {"scenario": scn, "faults": {}, "seed": _SEED,
+                                                               "hs_window": _HS_WINDOW})})
+    try:
+        def run(faults: dict) -> int:
+            nonlocal execs, max_n
+            v, n, obs = in_child(lambda: hs_continue(prep, faults), prep.b.w.loop)
+            execs += 1
+            max_n = max(max_n, n)
+            outcomes.add(repr(obs))
+            for key, what in v:
+                if key not in viols:
+                    viols[key] = (what, {"scenario": scn, "faults": faults, "seed": _SEED, "hs_window": _HS_WINDOW})
+            return n
+
+        def dfs(drops: tuple, n: int) -> None:
+            if len(drops) >= _HS_BOUND:
+                return
+            for j in range(drops[-1] + 1 if drops else 0, n):
+                d2 = (*drops, j)
+                dfs(d2, run({i: "drop" for i in d2}))
+
+        if part == "drops":
+            n0 = run({})
+            snap = in_child(lambda: hs_continue(prep, {}), prep.b.w.loop)
+            if repr(([k for k, _ in fresh[0]], *fresh[1:])) != repr(([k for k, _ in snap[0]], *snap[1:])):
+                raise RuntimeError(f"hidden-services {scn}: the execution in a snapshot differs from the one in a fresh "
+                                   f"world:\n{fresh!r}\n{snap!r}")
+            dfs((), n0)
+            run({"sched": "batch"})
+            run({"sched": "instant"})
+        elif part == "dup":
+            n0 = run({})
+            for j in range(n0):
+                run({j: "dup"})
+                run({j: "delay"})
+                if _HS_BOUND >= 2 and net == "closed":
+                    for i in range(n0 + 2):
+                        if i != j:
+                            run({j: "dup", i: "drop"} if i > j else {i: "drop", j: "dup"})
+        elif part == "batch":
+            nb = run({"sched": "batch"})
+            for j in range(nb):
+                for f in ("drop", "dup", "delay"):
+                    run({j: f, "sched": "batch"})
+        else:
+            raise ValueError(part)
+    finally:
+        prep.close()
+    return (item, execs, max_n, outcomes, viols)
+
+
 def explore_scenarios(chunk: list) -> list:
     res = []
     for scn in chunk:
+        if scn[0] == "hs":
+            res.append(explore_hs(scn))
+            continue
         execs = 0
         outcomes = set()
         viols: dict[str, tuple] = {}
@@ -381,7 +820,7 @@ def relay_early_checks(seed: int) -> tuple[list, int]:
 
 
 def run(ctx: core.Ctx) -> core.Report:
-    global _BOUND, _SEED, _SINGLES
+    global _BOUND, _SEED, _SINGLES, _HS_BOUND, _HS_WINDOW
     _BOUND = 3 if ctx.thorough else 2
     _SEED = ctx.seed % 8
     scns = scenarios()
@@ -394,11 +833,41 @@ def run(ctx: core.Ctx) -> core.Report:
             if ph != "build" or k in (1, last, (last + 1) // 2):
                 keep.append(s)
         scns = keep
-    res = core.pmap(explore_scenarios, scns, ctx.jobs, chunk=1)
+    _HS_BOUND = 2 if ctx.thorough else 1
+    _HS_WINDOW = FAULT_WINDOW if ctx.thorough else 15.0
+    hs_work = hs_items(ctx.thorough)
+    # the hidden-services items are the longest ones: hand them out first
+    res = core.pmap(explore_scenarios, hs_work + scns, ctx.jobs, chunk=1)
+    hs_res = [r for r in res if r[0][0] == "hs"]
+    res = [r for r in res if r[0][0] != "hs"]
     execs = sum(r[1] for r in res)
     violations = []
     distinct = 0
     per = []
+    hs_per: dict = {}
+    for (_, trig, net, part), e, max_n, outs, viols in sorted(hs_res, key=lambda r: repr(r[0])):
+        d = hs_per.setdefault((trig, net), {"executions": 0, "fault_candidates": 0, "outcomes": set(), "parts": []})
+        d["executions"] += e
+        d["fault_candidates"] = max(d["fault_candidates"], max_n)
+        d["outcomes"] |= outs
+        d["parts"].append(part)
+        for key, (what, rp) in viols.items():
+            violations.append(core.Violation(key, what, rp))
+    hs_execs = sum(d["executions"] for d in hs_per.values())
+    hs_distinct = sum(len(d["outcomes"]) for d in hs_per.values())
+    hs_cov = {
+        "worlds": len(hs_per),
+        "triggers": sorted({t for t, _ in hs_per}),
+        "nets": sorted({n for _, n in hs_per}),
+        "executions": hs_execs,
+        "distinct_outcomes": hs_distinct,
+        "bound_drops": _HS_BOUND,
+        "fault_window_s": _HS_WINDOW,
+        "second_circuits": "P->N3->N2->E and Q->[S]->[D]->E (running nodes only), used, then P and Q offline",
+        "per_world": [{"trigger": t, "net": n, "executions": d["executions"], "fault_candidates": d["fault_candidates"],
+                       "distinct_outcomes": len(d["outcomes"]), "parts": d["parts"]}
+                      for (t, n), d in sorted(hs_per.items())],
+    }
     for scn, e, max_n, n_out, viols in sorted(res, key=lambda r: repr(r[0])):
         distinct += n_out
         per.append({"scenario": scn, "executions": e, "fault_candidates": max_n, "distinct_outcomes": n_out})
@@ -409,26 +878,47 @@ def run(ctx: core.Ctx) -> core.Report:
     for key, what, rp in jv + rv:
         violations.append(core.Violation(key, what, rp))
     cov = {
-        "evaluations": execs + je + re_,
-        "distinct_nontrivial": distinct,
+        "evaluations": execs + je + re_ + hs_execs,
+        "distinct_nontrivial": distinct + hs_distinct,
         "rule": "one evaluation = one complete run of real TunnelCommunity nodes (default settings) from circuit build "
                 "through teardown to the deadline under one fault set; fault sets = every subset of <= bound dropped "
                 f"datagrams among those sent within {FAULT_WINDOW:.0f}s after the trigger (DFS: indices re-read from each "
                 "run), every single duplication and adjacent reordering, and dup+drop pairs; the fault-free run and every single fault again in scheduling mode 'batch' (all datagrams queued for one node handled in one loop iteration); distinct_nontrivial = "
                 "distinct (table sizes, open sockets, teardown action, datagrams sent, duration) observations summed "
-                "over scenarios",
-        "samples": per[:3] + per[-2:],
+                "over scenarios.  Hidden services (coverage.hidden_services): one evaluation = one run of real "
+                "HiddenTunnelCommunity nodes with a linked end-to-end circuit D->N3->N2(rendezvous)<-S, introduction "
+                "circuit S->N1->E and D's data circuit D->E, from the trigger (downloader / seeder offline, downloader "
+                "leaves the swarm, e2e circuit over max_traffic at D, rendezvous node / N3 removes its relays"
+                f"{', seeder leaves the swarm' if ctx.thorough else ''}) under one fault set to the deadline, then second "
+                "plain data circuits through the surviving path nodes that are used and abandoned, to a second deadline; "
+                f"fault sets = every subset of <= {_HS_BOUND} dropped datagrams among those sent within "
+                f"{_HS_WINDOW:.0f}s after the trigger, every single duplication and adjacent reordering"
+                f"{', dup+drop pairs (closed net)' if _HS_BOUND >= 2 else ''}, the fault-free run"
+                f"{' and every single fault' if ctx.thorough else ''} in scheduling mode 'batch', the fault-free run with "
+                "instantaneous loop iterations (everything else: every loop iteration takes 2 us of virtual time, so that "
+                "timers come due in the order in which they were armed); on a closed net (what "
+                "exits is lost) and on a bridged net (the outside delivers to the nodes' own addresses: the downloader "
+                f"rebuilds{'' if ctx.thorough else '; quick: drops and the fault-free runs only'}); "
+                "distinct = distinct (remaining judged entries by node/table/circuit class at both deadlines, unjudged "
+                "entries, leaks, stray sockets, ended periodic tasks, action, datagrams sent, exceptions) observations "
+                "summed over worlds",
+        "samples": per[:3] + per[-2:] + hs_cov["per_world"][:2],
         "exhaustive": True,
         "bound_drops": _BOUND,
         "scenarios": len(scns),
+        "executions_plain_circuits": execs,
+        "hidden_services": hs_cov,
         "join_limit_executions": je,
         "relay_early_executions": re_,
         "deadline_s": deadline(type("S", (), {"circuit_timeout": 60, "max_time_inactive": 20,
                                                "remove_tunnel_delay": 5})),
     }
     return core.Report(LEVEL, cov, violations,
-                       ["crypto primitives (ipv8_rust_tunnels) trusted", "one circuit in the world at a time (C05 covers "
-                        "concurrent circuits)", "PythonCryptoEndpoint only (the Rust endpoint is not explored)"])
+                       ["crypto primitives (ipv8_rust_tunnels) trusted", "plain-circuit family: one circuit in the world "
+                        "at a time (C05 covers concurrent circuits)", "PythonCryptoEndpoint only (the Rust endpoint is not "
+                        "explored)", "hidden services: one seeder and one downloader, stub DHT, no PEX community (no ipv8 "
+                        "service object), teardown only after the e2e circuit is linked; entries the nodes create after the "
+                        "trigger (rebuilt e2e circuits) are not judged"])
 
 
 def replay(ctx: core.Ctx, data) -> list:  # noqa: ANN001
@@ -441,6 +931,12 @@ def replay(ctx: core.Ctx, data) -> list:  # noqa: ANN001
         v, _ = relay_early_checks(data["seed"])
         return [core.Violation(k, w) for k, w, _ in v]
     scn = data["scenario"]
+    if scn[0] == "hs":
+        global _HS_WINDOW
+        _HS_WINDOW = float(data.get("hs_window", _HS_WINDOW))
+        faults = {(k if k == "sched" else int(k)): f for k, f in data["faults"].items()}
+        v, _, _ = run_hs(tuple(scn[:3]), faults, data["seed"])
+        return [core.Violation(k, w) for k, w in v]
     scn = (scn[0], scn[1], tuple(scn[2]))
-    v, _, _ = run_one(scn, {int(k): f for k, f in data["faults"].items()}, data["seed"])
+    v, _, _ = run_one(scn, {(k if k == "sched" else int(k)): f for k, f in data["faults"].items()}, data["seed"])
     return [core.Violation(k, w) for k, w in v]
